@@ -58,6 +58,8 @@ class Config:
     batch: int = 4
     skip_layers: list[str] = field(default_factory=list)
     sched: dict[str, str] = field(default_factory=dict)  # param -> fn name
+    steps0: int = 0              # the history starts from a step counter
+    # restored with load_state_dict({'steps': steps0}) into the fresh instance
     keep_grads: bool = False     # optimizer.zero_grad(set_to_none=False): the
     # gradient tensors survive from one iteration to the next
     grad_scaler: Any = None      # float: constant loss scale; 'dyn<base>':
@@ -455,6 +457,12 @@ class RankRun:
         self.dtype = DT[cfg.param_dtype]
         self.model = make_model(cfg.model, seed, self.dtype)
         self.pre = build_precond(cfg, self.model)
+        if cfg.steps0:
+            import warnings as _w
+            with _w.catch_warnings():
+                _w.simplefilter('ignore')
+                self.pre.load_state_dict({'steps': int(cfg.steps0)},
+                                         compute_inverses=False)
         self.sched = None
         self._make_sched()
         self.it = 0
